@@ -499,6 +499,7 @@ int main(int argc, char** argv, Driver& d) {
   std::string tier = "quick", out, replay;
   uint64_t seed = 0;
   int jobs = 16;
+  bool list = false;
   g_tmp = "/tmp";
   for (int i = 1; i < argc; i++) {
     std::string a = argv[i];
@@ -515,6 +516,13 @@ int main(int argc, char** argv, Driver& d) {
       jobs = atoi(next().c_str());
     else if (a == "--replay")
       replay = next();
+    else if (a == "--list")
+      list = true;
+  }
+  if (list) {
+    d.configure(tier, seed);
+    for (size_t i = 0; i < d.count(); i++) printf("%zu\t%s\n", i, d.describe(i).c_str());
+    return 0;
   }
   jobs = std::max(1, std::min(jobs, kMaxWorkers));
   {
